@@ -109,7 +109,7 @@ def compare(ctx, tf, prog, segs):
                 if isinstance(val, SymInt):
                     prove(z3.And(ex(got) == val.e, _int_type_formula(val.e, z3.IntVal(pt))), 'int-property', object=path, name=name, ptype=pt)
                 else:
-                    if int(got) != val or not z3.is_true(z3.simplify(_int_type_formula(z3.IntVal(val), z3.IntVal(pt)))):
+                    if type(got) is not int or int(got) != val or not z3.is_true(z3.simplify(_int_type_formula(z3.IntVal(val), z3.IntVal(pt)))):
                         fail('int-property', object=path, name=name, got=int(got), expected=val, ptype=pt)
             elif kind == 'String':
                 if isinstance(val, SymStr) or isinstance(got, SymStr):
@@ -120,10 +120,11 @@ def compare(ctx, tf, prog, segs):
                 if pt != 0x20:
                     fail('property-type', object=path, name=name, ptype=pt)
             elif kind == 'DoubleFloat':
-                if not (isinstance(got, float) and got == val and pt == 10):
+                import struct as _st
+                if not (type(got) is float and _st.pack('<d', got) == _st.pack('<d', val) and pt == 10):
                     fail('float-property', object=path, name=name, got=repr(got), ptype=pt)
             elif kind == 'Boolean':
-                if not (got is True and pt == 0x21):
+                if not (got is val and pt == 0x21):
                     fail('bool-property', object=path, name=name, got=repr(got), ptype=pt)
             elif kind == 'TimeStamp':
                 if not (isinstance(got, np.datetime64) and int(got.astype('datetime64[us]').astype('int64')) == val and pt == 0x44):
